@@ -205,8 +205,22 @@ def handleCss : List String → String
       s!"fn={fn} sel={selS} tag={bit c.tag.isSome} ns={nsS} limit={limS} flags={c.flags} extra={bit c.extra} wrap={bit wrap}"
   | _ => "bad-op"
 
+/-- `method <name>`: what a method name (canonical or deprecated alias) searches: `<all|one> <family|byrec>` -/
+def handleMethod : List String → String
+  | [name] =>
+    match methodOf name with
+    | none => "unknown"
+    | some k =>
+      let fam := match k.family with
+        | none => "byrec" | some .descendants => "desc" | some .children => "child" | some .nextElements => "next"
+        | some .previousElements => "prev" | some .nextSiblings => "nsib" | some .previousSiblings => "psib"
+        | some .parents => "par"
+      s!"{if k.plural then "all" else "one"} {fam}"
+  | _ => "bad-op"
+
 def handle : List String → String
   | "findh" :: rest => handleH rest
+  | "method" :: rest => handleMethod rest
   | "cssd" :: rest => handleCss rest
   | ["find", var, tree, start, fam, form, limit, name, attrs, string, kw, re, ft, fs] =>
     match parseTree tree, parseFam fam with
@@ -223,6 +237,15 @@ def handle : List String → String
       else if form == "one" then
         let r := findOneFam O v root st f q
         s!"{match r.1 with | some e => toString e.id | none => "none"} | {showCalls r.2}"
+      else if form == "sall" then       -- a SoupStrainer object: as `name`, or its own find_all(generator, limit)
+        let r := findAllStrainer O v (famQuery f q) lim (axis root st f)
+        s!"{showIds r.1} | {showCalls r.2}"
+      else if form == "sone" then       -- find(strainer) = find_all(strainer, limit=1)[0]
+        let r := findAllStrainer O v (famQuery f q) (some 1) (axis root st f)
+        s!"{match r.1.head? with | some e => toString e.id | none => "none"} | {showCalls r.2}"
+      else if form == "sfind" then      -- ElementFilter.find(generator): first of the unlimited filter
+        let r := findAllStrainer O v (famQuery f q) none (axis root st f)
+        s!"{match r.1.head? with | some e => toString e.id | none => "none"} | -"
       else if form == "spec" then
         let r := findAllSpec O (famQuery f q) (axis root st f)
         showIds (match lim with | some k => r.take k | none => r)
